@@ -9,6 +9,7 @@ CONSTANTS
   RDelims <- ExpRDelims
   MaxParts = 2
   MaxOps = 1
+  MaxRetry = 1
   ContentSel = {4, 6, 7}
   ProfileSel = {1, 2}
   UseJson = TRUE
